@@ -334,6 +334,21 @@ def check(ctx):
     from .common_domains import name_alias_domains_rule
     name_alias_domains_rule(ctx, "C13.R7", ("apischema.discriminators",))
 
+    # ---------------- R9: the discriminator key is consumed by the dispatch
+    ctx.rule("C13.R9", "ObjectMethod: the discriminator key, consumed by the union dispatch, is withdrawn from the keys offered to the pattern / additional-properties fields - otherwise deserialize(Base, serialize(Base, v)) puts 'type' into v's additional-properties field and the value does not round-trip", floor=1)
+    omd = model.func(f"{DESER_MOD}.ObjectMethod.deserialize")
+    rem_defs = [n for n in walk_no_nested(omd.node) if isinstance(n, ast.Assign) and norm(n.targets[0]) == "remain"]
+    ctx.require(len(rem_defs) == 1, "ObjectMethod.deserialize: `remain = ...` not found")
+    rd = rem_defs[0]
+    in_def = "discriminator" in norm(rd.value)
+    discards = [c for c in walk_no_nested(omd.node) if isinstance(c, ast.Call) and norm(c.func) in ("remain.discard", "remain.difference_update") and c.args and "discriminator" in norm(c.args[0])]
+    uses = [n for n in walk_no_nested(omd.node) if isinstance(n, (ast.DictComp, ast.For)) and ((isinstance(n, ast.DictComp) and norm(n.generators[0].iter) == "remain") or (isinstance(n, ast.For) and norm(n.iter) == "remain"))]
+    first_use = min((u.lineno for u in uses), default=10 ** 9)
+    ok = in_def or any(rd.lineno < c.lineno < first_use for c in discards)
+    ctx.check(ok, "C13.R9", f"{omd.qualname}:remain", None,
+              "the keys left for the aggregate fields (`remain`) still contain the discriminator key of the enclosing discriminated union: a member with an additional-properties (or matching pattern-properties) field stores {'type': 'Cat'} in it",
+              omd, rd, detail="remain.discard(discriminator) before the pattern / additional fields")
+
     # ---------------- R8: inherited discriminator, several inheritance levels
     ctx.rule("C13.R8", "discriminator(cls): the union the serializer converts to lists the subclasses most derived first - serialization takes the first alternative the object is an instance of, and rec_subclasses yields a parent before its children", floor=2)
     dc = model.func("apischema.discriminators.Discriminator.__call__")
@@ -352,6 +367,7 @@ def check(ctx):
     ctx.check(preorder or derived_first, "C13.R8", f"{rs_f.qualname}:order", None, "rec_subclasses no longer yields a class before its own subclasses and the serializer does not reorder: the order of the alternatives is unknown", rs_f, rs_f.node, detail="parent, then its subclasses", nontrivial=False)
 
 def mutants(mb):
+    mb.add_text("discriminator-left-for-aggregates", "apischema/deserialization/methods.py", "            # the discriminator key has been consumed by the union dispatch\n            remain.discard(discriminator)\n", "", "C13.R9", "remain")
     mb.add_text("discriminated-serializer-parents-first", "apischema/discriminators.py", "                target=Union[tuple(reversed(list(rec_subclasses(cls))))],\n", "                target=Union[tuple(rec_subclasses(cls))],\n", "C13.R8", "serializer-order")
     mb.add_text("discriminate-plain-alternative", "apischema/serialization/__init__.py", "                    DiscriminatedAlternative(\n                        expected_class(tp),\n                        self.visit(tp),\n                        self.aliaser(discriminator.alias),\n                        key,\n                    )\n", "                    UnionAlternative(expected_class(tp), self.visit(tp))\n", "C13.R4", "discriminate")
     mb.add_text("conversion-factory-keyed", "apischema/deserialization/__init__.py", "        return self._factory(factory, validation=not dynamic)\n", "        return dataclasses.replace(self._factory(factory, validation=not dynamic), cls=conv_factories[0].cls)\n", "C13.R1", "replace(cls=)")
